@@ -266,7 +266,7 @@ def h_real(params):
         order = choose("order", 2)
         pre_read = choose("pre_read", 5)
         logs = []
-        sizes = [0, 1, 2, 3, 160]  # 160 rows: > 8 KiB, beyond one read-ahead chunk of the text layer
+        sizes = params.get("sizes") or [0, 1, 2, 3, 160]  # 160 rows: > 8 KiB, beyond one read-ahead chunk of the text layer
         for n in sizes:
             path = os.path.join(os.path.dirname(h.path), f"real{n}.csv")
             db = TinyFlux(path, auto_index=ai, flush_on_insert=flush)
@@ -343,6 +343,8 @@ def obligations(tier):
                 for how in ("db", "handle", "compact", "measurement"):
                     obs.append({"id": f"fake/{idx}/{npts}pt/{order}/{how}", "harness": "h_fake", "params": {"idx": idx, "npts": npts, "order": order, "how": how}, "budget_s": 60})
     obs.append({"id": "real/prefix-and-calls", "harness": "h_real", "params": {}, "budget_s": 120})
+    if tier == "thorough":
+        obs.append({"id": "real/prefix-and-calls/large", "harness": "h_real", "params": {"sizes": [0, 5, 161, 700, 3000]}, "budget_s": 600})
     obs.append({"id": "twin/fake", "harness": "h_fake", "params": {"idx": "valid0", "npts": 1, "order": "in", "twin": True}, "budget_s": 30})
     obs.append({"id": "twin/real", "harness": "h_real", "params": {"twin": True}, "budget_s": 60})
     return obs
